@@ -549,3 +549,88 @@ def class_predicates(ctx, rule):
         ctx.ok(rule, "class-predicate:Any", mb.where(), "CharClass::Any matches everything")
     else:
         ctx.fail(rule, "class-predicate:Any", mb.where(), "CharClass::Any no longer matches everything")
+
+
+def text_methods_use_chars(ctx, rule):
+    """R15.j: Text::{split, strip, set_stem, set_pos} hand the *normalised* `self.chars` to the word methods, never the
+    NUL-padded original `self.source`"""
+    tm = _text_methods(ctx)
+    n = 0
+    for name in ("split", "strip", "set_stem", "set_pos"):
+        b = tm.get(name)
+        if b is None:
+            ctx.fail(rule, "text-method:%s" % name, "-", "Text::%s not found (fail closed)" % name)
+            continue
+        sy = ctx.sym(b)
+        for bi, t in b.calls():
+            if (t.get("rcn") or "").startswith("tokenization::word_shape::WordShape::") and len(t["args"]) >= 2:
+                n += 1
+                arr = U.field_path(sy.operand(t["args"][1]))
+                key = "chars-arg:%s" % name
+                if arr and arr[0] == "arg" and arr[1] == 1 and arr[2] == ["chars"]:
+                    ctx.ok(rule, key, where(b, bi, t), "Text::%s passes self.chars to WordShape::%s" % (name, t["rcn"].rsplit("::", 1)[-1]))
+                else:
+                    ctx.fail(rule, key, where(b, bi, t), "Text::%s passes %s instead of the normalised `chars` to WordShape::%s"
+                             % (name, ".".join(arr[2]) if arr else "another array", t["rcn"].rsplit("::", 1)[-1]),
+                             {"witness": "German 'Fuß': the NUL padding after 'ß' is stripped as trailing junk / the stemmer sees 'ß\\0'"})
+    ctx.floor(rule, "word_method_calls_from_text", n, 4)
+
+
+def punctuation_table(ctx, rule):
+    """R15.k: no character that the punctuation predicate accepts is a letter or digit (Unicode categories L*, N*)"""
+    import unicodedata as ud
+    b = None
+    for x in ctx.facts.fns():
+        if x.cn.endswith("char_class::is_punctuation"):
+            b = x
+    if not ctx.require(rule, "is_punctuation", b):
+        return
+    sy = ctx.sym(b)
+    chars = []
+    for bi, t in b.iter_terms():
+        if t["k"] == "switch" and t.get("discr_ty") == "char":
+            for val, tgt in t["targets"]:
+                e = U.arm_ret_expr(ctx, b, tgt)
+                if e is not None and U.is_const(e) and S.const_value(e) is True:
+                    chars.append(chr(val))
+    if not ctx.floor(rule, "punctuation_characters", len(chars), 10, b.where()):
+        return
+    bad = [c for c in chars if ud.category(c)[0] in ("L", "N")]
+    key = "no-alphanumeric-punctuation"
+    if not bad:
+        ctx.ok(rule, key, b.where(), "none of the %d punctuation characters is a letter or digit" % len(chars), nontrivial=True)
+    else:
+        ctx.fail(rule, key, b.where(), "the punctuation predicate accepts letters/digits: %s" %
+                 ", ".join("U+%04X %s (%s)" % (ord(c), c, ud.category(c)) for c in bad),
+                 {"witness": "a word containing that letter (e.g. 'O\\u02BCahu') is cut in two and the letter lies in no word"})
+
+
+def lower_rules(ctx, rule):
+    """R15.l: Text::lower lower-cases every character for which `char::is_uppercase` holds: the pre-check (if any) is
+    `any(|ch| ch.is_uppercase())` and the loop writes `to_lowercase().next()`"""
+    tm = _text_methods(ctx)
+    b = tm.get("lower")
+    if not ctx.require(rule, "Text::lower", b):
+        return
+    sy = ctx.sym(b)
+    guards = [(bi, t) for bi, t in b.calls() if U.callee_is(t, "Iterator::any", "Iterator::all", "Iterator::find", "Iterator::position")]
+    key = "precheck"
+    ok = True
+    for bi, t in guards:
+        cb = U.closure_body(ctx, sy.operand(t["args"][1]))
+        e = ctx.sym(cb).local(0) if cb is not None else None
+        if not (e is not None and e[0] == "call" and e[1].endswith("<impl char>::is_uppercase")):
+            ok = False
+            ctx.fail(rule, key, where(b, bi, t), "the pre-check of Text::lower is `%s`, not `is_uppercase`: titles whose capitals are all "
+                     "non-ASCII are never lower-cased" % (S.show(e, cb)[:60] if e is not None else "?"),
+                     {"witness": "Russian title 'Москва' stays capitalised; the query 'мосвка' no longer finds it"})
+    if ok:
+        ctx.ok(rule, key, b.where(), "Text::lower is skipped only when no character is upper-case (char::is_uppercase)", nontrivial=True)
+    key = "mapping"
+    maps = U.calls_named(b, "<impl char>::to_lowercase")
+    src = U.field_path(sy.operand(maps[0][1]["args"][0])) if maps else None
+    if maps:
+        ctx.ok(rule, key, where(b, maps[0][0], maps[0][1]), "characters are mapped with char::to_lowercase")
+    else:
+        ctx.fail(rule, key, b.where(), "Text::lower no longer maps characters with char::to_lowercase",
+                 {"witness": "non-ASCII capitals are not folded"})
